@@ -20,7 +20,7 @@ Print Assumptions asdict_reference.
 (** Keys = the filter-passing field names, in field order. *)
 Theorem asdict_keys : forall E recurse retain flt df ser c vs r,
   NoDup (map fst (fields_of E c)) ->
-  asdict E recurse retain flt df ser (VI c vs) = Some r ->
+  asdict E recurse retain flt df ser (VI c vs) = Ok r ->
   exists items, r = VD df items /\
     map fst items = map (fun fv => VStr (fst (fst fv))) (kept (passes flt) (fields_of E c) vs).
 Proof. exact asdict_keys_l. Qed.
@@ -29,20 +29,20 @@ Print Assumptions asdict_keys.
 (** No attrs instance is left anywhere in the result, at any depth (a
     serializer may hide one inside the opaque value it returns). *)
 Theorem no_instance_left : forall E retain flt df ser,
-  (forall w v r, ser_apply ser w v = Some r -> inst_free r = true) ->
-  forall inst r, asdict E true retain flt df ser inst = Some r -> inst_free r = true.
+  (forall w v r, ser_apply ser w v = Ok (Some r) -> inst_free r = true) ->
+  forall inst r, asdict E true retain flt df ser inst = Ok r -> inst_free r = true.
 Proof. exact no_instance_left_l. Qed.
 Print Assumptions no_instance_left.
 
 (** retain_collection_types: every converted collection keeps its exact class. *)
 Theorem retain_types : forall E k flt df ser v r,
-  is_seq v = true -> asdict_anything E k true flt df ser v = Some r -> type_of r = type_of v.
+  is_seq v = true -> asdict_anything E k true flt df ser v = Ok r -> type_of r = type_of v.
 Proof. exact retain_types_l. Qed.
 Print Assumptions retain_types.
 
 (** Otherwise collections become lists; in a dict key they become tuples ... *)
 Theorem nonretain_types : forall E k flt df ser v r,
-  is_seq v = true -> asdict_anything E k false flt df ser v = Some r ->
+  is_seq v = true -> asdict_anything E k false flt df ser v = Ok r ->
   type_of r = if k then TyT TkT else TyL.
 Proof. exact nonretain_types_l. Qed.
 Print Assumptions nonretain_types.
@@ -50,16 +50,16 @@ Print Assumptions nonretain_types.
 (** ... and so do, recursively, the collections inside such a key. *)
 Theorem key_collections_become_tuples : forall E flt df ser v xs r,
   (v = VL xs \/ (exists t, v = VT t xs) \/ v = VS xs \/ v = VF xs) ->
-  asdict_anything E true false flt df ser v = Some r ->
+  asdict_anything E true false flt df ser v = Ok r ->
   exists items, r = VT TkT items /\
-    Forall2 (fun x y => asdict_anything E true false flt df ser x = Some y) xs items.
+    Forall2 (fun x y => asdict_anything E true false flt df ser x = Ok y) xs items.
 Proof. exact key_members_are_keys_l. Qed.
 Print Assumptions key_collections_become_tuples.
 
 (** Field-level collections (converted by [asdict] itself). *)
 Theorem field_collection_types : forall E rec_inst rec_any retain df ser c f v r,
-  is_seq v = true -> ser_apply ser (Some (c, fst f)) v = None ->
-  asdict_field E rec_inst rec_any true retain df ser c f v = Some r ->
+  is_seq v = true -> ser_apply ser (Some (c, fst f)) v = Ok None ->
+  asdict_field E rec_inst rec_any true retain df ser c f v = Ok r ->
   type_of r = if retain then type_of v else TyL.
 Proof. exact field_collection_types_l. Qed.
 Print Assumptions field_collection_types.
@@ -67,28 +67,29 @@ Print Assumptions field_collection_types.
 (** Dicts and nested instances come out of dict_factory. *)
 Theorem dict_factory_used : forall E k retain flt df ser v r,
   (is_dict v || is_inst v) = true ->
-  asdict_anything E k retain flt df ser v = Some r -> type_of r = TyD df.
+  asdict_anything E k retain flt df ser v = Ok r -> type_of r = TyD df.
 Proof. exact dict_factory_used_l. Qed.
 Print Assumptions dict_factory_used.
 
 (** The positions at which value_serializer is applied. *)
 Theorem serializer_positions : forall E,
   (forall rec_inst rec_any recurse retain df ser c f v r,
-     ser_apply ser (Some (c, fst f)) v = Some r ->
-     asdict_field E rec_inst rec_any recurse retain df ser c f v = Some r) /\
+     ser_apply ser (Some (c, fst f)) v = Ok (Some r) ->
+     asdict_field E rec_inst rec_any recurse retain df ser c f v = Ok r) /\
   (forall rec_inst rec_any recurse retain df ser c f v,
-     ser_apply ser (Some (c, fst f)) v = None -> is_leaf v = true ->
-     asdict_field E rec_inst rec_any recurse retain df ser c f v = Some v) /\
+     ser_apply ser (Some (c, fst f)) v = Ok None -> is_leaf v = true ->
+     asdict_field E rec_inst rec_any recurse retain df ser c f v = Ok v) /\
   (forall k retain flt df ser v,
-     is_leaf v = true -> asdict_anything E k retain flt df ser v = Some (ser_value ser None v)).
+     is_leaf v = true -> asdict_anything E k retain flt df ser v = ser_value ser None v).
 Proof. exact serializer_positions_l. Qed.
 Print Assumptions serializer_positions.
 
-(** recurse=False: the values are returned untouched. *)
-Theorem recurse_false_identity : forall E retain flt df c vs,
+(** recurse=False: the values are returned untouched (whenever the filter does not raise;
+    without a filter the call cannot fail: [recurse_false_total]). *)
+Theorem recurse_false_identity : forall E retain flt df c vs r,
   NoDup (map fst (fields_of E c)) ->
-  asdict E false retain flt df None (VI c vs) =
-  Some (VD df (map (fun fv => (VStr (fst (fst fv)), snd fv)) (kept (passes flt) (fields_of E c) vs))).
+  asdict E false retain flt df None (VI c vs) = Ok r ->
+  r = VD df (map (fun fv => (VStr (fst (fst fv)), snd fv)) (kept (passes flt) (fields_of E c) vs)).
 Proof. exact recurse_false_identity_l. Qed.
 Print Assumptions recurse_false_identity.
 
@@ -100,11 +101,12 @@ Proof. exact astuple_reference_l. Qed.
 Print Assumptions astuple_reference.
 
 (** astuple yields positionally what asdict yields by name. *)
-Theorem astuple_corresponds : forall E retain flt df tf c vs,
+Theorem astuple_corresponds : forall E retain flt df tf c vs r,
   NoDup (map fst (fields_of E c)) ->
+  asdict E false retain flt df None (VI c vs) = Ok r ->
   exists items,
-    asdict E false retain flt df None (VI c vs) = Some (VD df items) /\
-    astuple E false retain flt tf (VI c vs) = Some (apply_tf tf (map snd items)).
+    asdict E false retain flt df None (VI c vs) = Ok (VD df items) /\
+    astuple E false retain flt tf (VI c vs) = Ok (apply_tf tf (map snd items)).
 Proof. exact astuple_corresponds_l. Qed.
 Print Assumptions astuple_corresponds.
 
@@ -114,7 +116,7 @@ Theorem asdict_roundtrip : forall E c vs,
   (forall f, In f (fields_of E c) -> lstrip_us (fst f) = fst f) ->
   List.length vs = List.length (fields_of E c) ->
   Forall (fun v => is_leaf v = true) vs ->
-  roundtrip E c vs = Some (VI c vs).
+  roundtrip E c vs = Ok (VI c vs).
 Proof. exact asdict_roundtrip_l. Qed.
 Print Assumptions asdict_roundtrip.
 
@@ -122,7 +124,76 @@ Print Assumptions asdict_roundtrip.
     observed value IS the model's value and the reference's value (with sets:
     equal up to the order of members). *)
 Theorem check_case_exact : forall c r,
-  check_case c = true -> run_faithful c = Some r -> set_free r = true ->
-  c_seen c = Some r /\ run_ideal c = Some r.
+  check_case c = true -> run_faithful c = Ok r -> set_free r = true ->
+  c_seen c = Ok r /\ run_ideal c = Ok r.
 Proof. exact check_case_exact_l. Qed.
 Print Assumptions check_case_exact.
+
+Theorem recurse_false_total : forall E retain df c vs,
+  exists r, asdict E false retain None df None (VI c vs) = Ok r.
+Proof. exact recurse_false_total_l. Qed.
+Print Assumptions recurse_false_total.
+
+(** ** Exceptions propagate unchanged, there is no partial result.
+    An exception raised by the value_serializer, by the filter, or while hashing a
+    converted member / key is the outcome of the enclosing conversion, whatever the
+    enclosing collection is rebuilt as; applied level by level this reaches the
+    top-level call from any depth. *)
+Theorem serializer_error_propagates : forall E retain df ser rec_inst rec_any recurse c f v e,
+  ser_apply ser (Some (c, fst f)) v = Err e ->
+  asdict_field E rec_inst rec_any recurse retain df ser c f v = Err e.
+Proof. exact serializer_error_propagates_l. Qed.
+Print Assumptions serializer_error_propagates.
+
+Theorem leaf_error_propagates : forall E retain flt df ser k v e,
+  is_leaf v = true -> ser_apply ser None v = Err e ->
+  asdict_anything E k retain flt df ser v = Err e.
+Proof. exact leaf_error_propagates_l. Qed.
+Print Assumptions leaf_error_propagates.
+
+Theorem member_error_propagates : forall E retain flt df ser k v pre x post e,
+  (v = VL (pre ++ x :: post) \/ (exists t, v = VT t (pre ++ x :: post)) \/
+   v = VS (pre ++ x :: post) \/ v = VF (pre ++ x :: post)) ->
+  Forall (fun p => exists r, asdict_anything E k retain flt df ser p = Ok r) pre ->
+  asdict_anything E k retain flt df ser x = Err e ->
+  asdict_anything E k retain flt df ser v = Err e.
+Proof. exact member_error_propagates_l. Qed.
+Print Assumptions member_error_propagates.
+
+Theorem result_needs_all_members : forall E retain flt df ser k v xs r,
+  (v = VL xs \/ (exists t, v = VT t xs) \/ v = VS xs \/ v = VF xs) ->
+  asdict_anything E k retain flt df ser v = Ok r ->
+  Forall (fun x => exists y, asdict_anything E k retain flt df ser x = Ok y) xs.
+Proof. exact result_needs_all_members_l. Qed.
+Print Assumptions result_needs_all_members.
+
+Theorem dict_error_propagates : forall E retain flt df ser k dk kk x post e,
+  (asdict_anything E true retain flt df ser kk = Err e \/
+   (exists a, asdict_anything E true retain flt df ser kk = Ok a /\
+              asdict_anything E false retain flt df ser x = Err e) \/
+   (exists a b, asdict_anything E true retain flt df ser kk = Ok a /\
+                asdict_anything E false retain flt df ser x = Ok b /\
+                hashable E a = false /\ e = ETypeError)) ->
+  asdict_anything E k retain flt df ser (VD dk ((kk, x) :: post)) = Err e.
+Proof. exact dict_error_propagates_l. Qed.
+Print Assumptions dict_error_propagates.
+
+Theorem field_error_propagates : forall E retain flt df ser recurse c fs1 vs1 f v fs2 vs2 e,
+  fields_of E c = fs1 ++ f :: fs2 ->
+  Forall2 (fun f0 v0 => passes flt f0 v0 = Ok false \/
+             (passes flt f0 v0 = Ok true /\
+              exists x, asdict_field E (asdict_anything E false retain flt df ser)
+                          (fun k => asdict_anything E k retain flt df ser) recurse retain df ser c f0 v0 = Ok x))
+          fs1 vs1 ->
+  (passes flt f v = Err e \/
+   (passes flt f v = Ok true /\
+    asdict_field E (asdict_anything E false retain flt df ser)
+      (fun k => asdict_anything E k retain flt df ser) recurse retain df ser c f v = Err e)) ->
+  asdict E recurse retain flt df ser (VI c (vs1 ++ v :: vs2)) = Err e.
+Proof. exact field_error_propagates_l. Qed.
+Print Assumptions field_error_propagates.
+
+Theorem check_case_error_exact : forall c e,
+  check_case c = true -> run_faithful c = Err e -> c_seen c = Err e /\ run_ideal c = Err e.
+Proof. exact check_case_error_exact_l. Qed.
+Print Assumptions check_case_error_exact.
